@@ -49,7 +49,11 @@ theorem srunO_append_eq (c : Cfg) (v : SVariant) (l1 l2 : List SAct) (sa : SStat
       | some (s1, o1) => (srunO c v s1 l2).map (fun r => (r.1, o1 ++ r.2))
       | none => none := by
   induction l1 generalizing sa with
-  | nil => simp [srunO]; cases srunO c v sa l2 <;> simp
+  | nil =>
+    simp only [srunO, List.nil_append]
+    cases srunO c v sa l2 with
+    | none => rfl
+    | some r => simp
   | cons y ys ih =>
     simp only [srunO, List.cons_append]
     cases hy : sstep c v sa y with
